@@ -86,6 +86,18 @@ def _clamp(n, top):
     return min(n, top)
 
 
+def _nested_v00_certificate(levels):
+    """An OpenSSH v00 RSA certificate whose signature key is again such a certificate, `levels` deep (chained
+    certificates are not supported by the format: a parser either refuses the inner one or recurses)."""
+    exponent, modulus = _ssh_string(b'\x01\x00\x01'), _ssh_string(b'\x00\xc1' + b'\x23' * 31)
+    key = _ssh_string(b'ssh-rsa') + exponent + modulus
+    signature = _ssh_string(_ssh_string(b'ssh-rsa') + _ssh_string(b'\x00' * 8))
+    for _ in range(levels):
+        key = (_ssh_string(b'ssh-rsa-cert-v00@openssh.com') + exponent + modulus + u(2, 4) + _ssh_string(b'id') + _ssh_string(b'')
+               + u(0, 8) + u(2 ** 64 - 1, 8) + _ssh_string(b'') + _ssh_string(b'') + _ssh_string(b'') + _ssh_string(key) + signature)
+    return key
+
+
 SHAPES = [
     # --- TLS binary containers
     (T + 'subprotocol:TlsHandshakeClientHello', 'many-cipher-suites', lambda n: _hello(suites=b'\x00\x2f' * _clamp(n, 32000))),
@@ -130,6 +142,8 @@ SHAPES = [
      lambda n: (lambda body: u(len(body), 4) + body)((_ssh_string(b'x@y') + _ssh_string(b'')) * n)),
     (S + 'key:SshX509CertificateChain', 'declared-count-max',
      lambda n: _ssh_string(b'x509v3-ssh-rsa') + b'\xff\xff\xff\xff' + b'\x00' * n),
+    (S + 'key:SshHostPublicKeyVariant', 'nested-v00-certificates', lambda n: _nested_v00_certificate(max(1, n // 16))),
+    (S + 'key:SshHostCertificateV00RSA', 'nested-v00-certificates', lambda n: _nested_v00_certificate(max(1, n // 16))),
     (S + 'key:SshHostKeyRSA', 'huge-modulus', lambda n: _ssh_string(b'ssh-rsa') + _ssh_string(b'\x01\x00\x01') + _ssh_string(b'\x7f' * (n * 8))),
     (S + 'record:SshRecordInit', 'big-kexinit',
      lambda n: (lambda payload: u(len(payload) + 1 + 4, 4) + b'\x04' + payload + b'\x00' * 4)(_kexinit({0: b','.join([b'a'] * n)}))),
